@@ -133,13 +133,17 @@ func (m *Machine) visitInstr(fr *frame, instr ssa.Instruction) continuation {
 		*addr = zero(deref(instr.Type()))
 
 	case *ssa.MakeSlice:
-		lt, ct := asTerm(fr.get(instr.Len)), asTerm(fr.get(instr.Cap))
-		// negative or huge sizes panic
-		limit := BV(64, 1<<24)
-		m.rtPanic(fr, Not(Cmp(OpUlt, lt, limit)), "makeslice: len out of range")
-		m.rtPanic(fr, Or(Not(Cmp(OpUlt, ct, limit)), Cmp(OpUlt, ct, lt)), "makeslice: cap out of range")
-		n := m.concretize(lt, "makeslice-len@"+fr.where())
-		c := m.concretize(ct, "makeslice-cap@"+fr.where())
+		lt, ct := m.toIndex(asTerm(fr.get(instr.Len)), instr.Len.Type()), m.toIndex(asTerm(fr.get(instr.Cap)), instr.Cap.Type())
+		// negative sizes panic; sizes above the harness' allocation limit are violations;
+		// sizes above 2^24 elements are not modelled
+		m.rtPanic(fr, Cmp(OpSlt, lt, BV(64, 0)), "makeslice: len out of range")
+		m.rtPanic(fr, Or(Cmp(OpSlt, ct, BV(64, 0)), Cmp(OpSlt, ct, lt)), "makeslice: cap out of range")
+		m.allocCheck(fr, ct)
+		n := m.concretizeSize(lt, "makeslice-len@"+fr.where())
+		c := n
+		if ct != lt {
+			c = m.concretizeSize(ct, "makeslice-cap@"+fr.where())
+		}
 		m.noteAlloc(fr, int(c))
 		s := make([]Value, c)
 		tElt := instr.Type().Underlying().(*types.Slice).Elem()
@@ -275,6 +279,26 @@ func (m *Machine) toIndex(idx *Term, t types.Type) *Term {
 
 func loadSym(se *SymElem) Value {
 	n := len(se.Elems)
+	// constant tables: one comparison per run of equal values instead of one per element
+	allConst := n > 8
+	for _, e := range se.Elems {
+		if t, ok := e.(*Term); !ok || !t.IsConst() {
+			allConst = false
+			break
+		}
+	}
+	if allConst {
+		r := se.Elems[n-1].(*Term)
+		for i := n - 2; i >= 0; i-- {
+			cur := se.Elems[i].(*Term)
+			if cur == se.Elems[i+1].(*Term) {
+				continue
+			}
+			// elements 0..i form (the end of) a run with value cur; idx <= i selects it
+			r = Ite(Cmp(OpUlt, se.Idx, BV(64, uint64(i+1))), cur, r)
+		}
+		return r
+	}
 	r := se.Elems[n-1].(*Term)
 	for i := n - 2; i >= 0; i-- {
 		r = Ite(Eq(se.Idx, BV(64, uint64(i))), se.Elems[i].(*Term), r)
